@@ -33,7 +33,13 @@ enum Msg {
     Harness { msg: String },
     #[serde(rename = "stats")]
     Stats { s: Box<Stats> },
+    /// occurrences of a clause beyond the ones sent in full (a worker sends at most KEEP_PER_CLAUSE)
+    #[serde(rename = "more")]
+    More { clause: String, n: u64 },
 }
+
+/// full violations (with their scenario) a worker reports per clause; further ones are only counted
+const KEEP_PER_CLAUSE: u64 = 12;
 
 #[derive(Serialize, Deserialize, Debug, Clone)]
 pub struct KnownFinding {
@@ -69,6 +75,7 @@ pub fn worker_main(fam: &dyn Family, tier: Tier, master: u64, start: u64, stride
     }
     let mut i = start;
     let mut first = true;
+    let mut seen: BTreeMap<String, u64> = BTreeMap::new();
     while i < total {
         let base = fam.generate(master, i, tier);
         let scenarios = fam.expand(base, &mut stats);
@@ -89,8 +96,12 @@ pub fn worker_main(fam: &dyn Family, tier: Tier, master: u64, start: u64, stride
             match res {
                 Ok(vs) => {
                     for v in vs {
-                        let mut o = out.lock();
-                        let _ = writeln!(o, "{}", serde_json::to_string(&Msg::Viol { v }).unwrap());
+                        let n = seen.entry(v.clause.clone()).or_insert(0);
+                        *n += 1;
+                        if *n <= KEEP_PER_CLAUSE {
+                            let mut o = out.lock();
+                            let _ = writeln!(o, "{}", serde_json::to_string(&Msg::Viol { v }).unwrap());
+                        }
                     }
                 }
                 Err(msg) => {
@@ -107,6 +118,11 @@ pub fn worker_main(fam: &dyn Family, tier: Tier, master: u64, start: u64, stride
         i += stride;
     }
     let mut o = out.lock();
+    for (clause, n) in seen {
+        if n > KEEP_PER_CLAUSE {
+            let _ = writeln!(o, "{}", serde_json::to_string(&Msg::More { clause, n: n - KEEP_PER_CLAUSE }).unwrap());
+        }
+    }
     let _ = writeln!(o, "{}", serde_json::to_string(&Msg::Stats { s: Box::new(stats) }).unwrap());
     let _ = o.flush();
     0
@@ -116,13 +132,14 @@ pub fn worker_main(fam: &dyn Family, tier: Tier, master: u64, start: u64, stride
 
 struct WorkerResult {
     violations: Vec<Violation>,
+    more: BTreeMap<String, u64>,
     harness: Vec<String>,
     stats: Stats,
     crashes: Vec<(u64, u64, String)>,
 }
 
 fn run_worker_to_end(exe: &Path, fam_id: &str, tier: Tier, master: u64, start: u64, stride: u64, total: u64, profile_env: &str) -> WorkerResult {
-    let mut res = WorkerResult { violations: Vec::new(), harness: Vec::new(), stats: Stats::default(), crashes: Vec::new() };
+    let mut res = WorkerResult { violations: Vec::new(), more: BTreeMap::new(), harness: Vec::new(), stats: Stats::default(), crashes: Vec::new() };
     let mut cur_start = start;
     let mut resume_sub = 0u64;
     loop {
@@ -157,6 +174,7 @@ fn run_worker_to_end(exe: &Path, fam_id: &str, tier: Tier, master: u64, start: u
             }
             match serde_json::from_str::<Msg>(&line) {
                 Ok(Msg::Viol { v }) => res.violations.push(v),
+                Ok(Msg::More { clause, n }) => *res.more.entry(clause).or_insert(0) += n,
                 Ok(Msg::Harness { msg }) => res.harness.push(msg),
                 Ok(Msg::Stats { s }) => {
                     res.stats.merge(*s);
@@ -243,12 +261,16 @@ pub fn check(fam: &'static dyn Family, tier: Tier, workers: usize) -> CheckOutco
     }
     let mut stats = Stats::default();
     let mut violations: Vec<Violation> = Vec::new();
+    let mut more: BTreeMap<String, u64> = BTreeMap::new();
     let mut harness: Vec<String> = Vec::new();
     let mut crashes = Vec::new();
     for h in handles {
         let r = h.join().expect("worker thread");
         stats.merge(r.stats);
         violations.extend(r.violations);
+        for (c, n) in r.more {
+            *more.entry(c).or_insert(0) += n;
+        }
         harness.extend(r.harness);
         crashes.extend(r.crashes);
     }
@@ -283,8 +305,8 @@ pub fn check(fam: &'static dyn Family, tier: Tier, workers: usize) -> CheckOutco
     for (clause, vs) in &by_clause {
         let listed = known.iter().find(|k| k.status == "known" && k.property == info.id && &k.clause == clause);
         if let Some(k) = listed {
-            println!("KNOWN-FINDING: property={} {} [{}; met in {} runs]", info.id, k.what, clause, vs.len());
-            known_met.push(serde_json::json!({"clause": clause, "runs": vs.len(), "what": k.what, "example": vs[0].detail}));
+            println!("KNOWN-FINDING: property={} {} [{}; met in {} runs]", info.id, k.what, clause, vs.len() as u64 + more.get(clause).copied().unwrap_or(0));
+            known_met.push(serde_json::json!({"clause": clause, "runs": vs.len() as u64 + more.get(clause).copied().unwrap_or(0), "what": k.what, "example": vs[0].detail}));
             continue;
         }
         // minimise the smallest-looking instance, confirm by replay in a fresh process
@@ -313,8 +335,8 @@ pub fn check(fam: &'static dyn Family, tier: Tier, workers: usize) -> CheckOutco
         };
         if confirmed {
             println!("VIOLATION property={} replay={}", info.id, path.display());
-            println!("  clause: {clause}\n  detail: {min_detail}\n  occurrences: {}", vs.len());
-            reported.push(serde_json::json!({"clause": clause, "runs": vs.len(), "replay": path, "detail": min_detail}));
+            println!("  clause: {clause}\n  detail: {min_detail}\n  occurrences: {}", vs.len() as u64 + more.get(clause).copied().unwrap_or(0));
+            reported.push(serde_json::json!({"clause": clause, "runs": vs.len() as u64 + more.get(clause).copied().unwrap_or(0), "replay": path, "detail": min_detail}));
             exit = 1;
         } else {
             harness.push(format!("violation of {clause} did not reproduce in a fresh process ({}); treated as a harness error", path.display()));
